@@ -369,7 +369,7 @@ pub fn run() {
   // 1. operator trees
   let mut trees = depth2_trees();
   let d2 = trees.len();
-  let spines = depth3_spines(run.thorough());
+  let spines = depth3_spines(true);
   let d3 = spines.len();
   trees.extend(spines);
   trees.par_iter().for_each(|(label, t)| check_tree(&run, label, t, &names, &counters));
